@@ -170,7 +170,7 @@ def _reduce(a, f2, axis):
 
 
 # ----------------------------------------------------------------------------------------- DFT
-EXACT_LENGTHS = (1, 2, 4)
+EXACT_LENGTHS = (1, 2, 3, 4, 6, 12)
 
 
 def twiddles(n, sign):
@@ -183,6 +183,14 @@ def twiddles(n, sign):
                 q = (4 * m) // n
                 c, s = [(1, 0), (0, 1), (-1, 0), (0, -1)][q]
                 W[k, j] = S(Fraction(c), Fraction(sign * s))
+            elif (12 * m) % n == 0:
+                # multiples of 30 degrees: exact with the algebraic constant r3 = sqrt(3) (r3 * r3 folds to 3)
+                q = (12 * m) // n
+                r3h = to_S(Fraction(3)).sqrt() * Fraction(1, 2)
+                half = S(Fraction(1, 2))
+                cos_t = [S(Fraction(1)), r3h, half, S(Fraction(0)), -half, -r3h, S(Fraction(-1)), -r3h, -half, S(Fraction(0)), half, r3h]
+                c, s_ = cos_t[q], cos_t[(q - 3) % 12]
+                W[k, j] = S(c.re, (s_ * sign).re)
             else:
                 th = 2 * math.pi * m / n
                 core.ctx().inexact = True
